@@ -96,6 +96,33 @@ func (p Poly) Equal(q Poly) bool {
 	return true
 }
 
+// SplitLinear writes p as coef*sym + rest when p is linear in sym.
+func (p Poly) SplitLinear(sym string) (coef, rest Poly, ok bool) {
+	coef, rest = Poly{}, Poly{}
+	for k, v := range p {
+		var others []string
+		n := 0
+		if k != "" {
+			for _, f := range strings.Split(k, "*") {
+				if f == sym {
+					n++
+				} else {
+					others = append(others, f)
+				}
+			}
+		}
+		switch n {
+		case 0:
+			rest[k] = v
+		case 1:
+			coef[strings.Join(others, "*")] = v
+		default:
+			return nil, nil, false
+		}
+	}
+	return coef, rest, true
+}
+
 func (p Poly) IsZero() bool { return len(p) == 0 }
 
 func (p Poly) IsConst() (int64, bool) {
